@@ -17,6 +17,9 @@ for d in "$@"; do
     fi
     if [ -f "$d/demo.cpp" ]; then
       FL="-std=c++20 -g -fsanitize=address,undefined -pthread"
+      # the demonstration's own build line decides the sanitizer where it names one (thread sanitizer, non-recovering UBSan)
+      if grep -q -- '-fsanitize=thread' "$d/build.txt" 2>/dev/null; then FL="-std=c++20 -g -O1 -fsanitize=thread -pthread"; fi
+      if grep -q -- '-fno-sanitize-recover' "$d/build.txt" 2>/dev/null; then FL="$FL -fno-sanitize-recover=all"; fi
       if clang++ $FL -I"$W/r/include" -I"$W/b/include" "$d/demo.cpp" -o "$W/demo_mut" >"$W/cc_mut.log" 2>&1; then
         ( cd "$W" && timeout 300 ./demo_mut >"$W/mut.out" 2>&1 ); mut_rc=$?
       else cc_mut="compile failed: $(head -3 "$W/cc_mut.log" | tr '\n' ' ')"; fi
